@@ -1,6 +1,6 @@
 (* C04 - a synchronous call returns the server's reply to that very call (I/O-thread side: routing).
    This file only pins statements. *)
-From Amq Require Import Lib.Base Gen.Consts Model.Wire Model.Frames Model.OutBuf Model.Collector Model.Slots Model.Core Spec.Slots Spec.Content Proofs.Slots Proofs.OutBuf Proofs.Collector Proofs.CoreContent Proofs.CoreInv Proofs.CoreMore Model.Handle Proofs.Handle Model.Sys Proofs.Sys Proofs.SysRefine Proofs.SysLive Lib.RsVal Gen.SrcHandle Proofs.HandleSrc.
+From Amq Require Import Lib.Base Gen.Consts Model.Wire Model.Frames Model.OutBuf Model.Collector Model.Slots Model.Core Spec.Slots Spec.Content Proofs.Slots Proofs.OutBuf Proofs.Collector Proofs.CoreContent Proofs.CoreInv Proofs.CoreMore Model.Handle Proofs.Handle Model.Sys Proofs.Sys Proofs.SysRefine Proofs.SysLive Lib.RsVal Gen.SrcHandle Proofs.HandleSrc Gen.SrcQueues Proofs.QueuesSrc.
 
 (* A reply-class frame (the 13 -Ok methods with all their fields, Get-Empty) on channel n is appended, unchanged, to the reply queue of slot n; the resulting state differs from the old one in that queue ONLY (set_qs c (pushed ...)): no other queue, slot, buffer or phase changes, for every n, every reply, every state *)
 Theorem C04_routing : forall (n : N) (m : smethod) (dbg : str) (c : core) (s : slot), steady c -> n <> 0 -> alookup n (c_slots c) = Some s -> is_reply m -> has_room (s_reply s) (c_qs c) -> process c (FMethod n m, dbg) = (OOk, set_qs c (pushed (s_reply s) (reply_item m) (c_qs c))).
@@ -15,7 +15,7 @@ Theorem C04_other_channels : forall (f : frame) (dbg : str) (c : core) (o : outc
 Proof. exact frame_other_channels. Qed.
 
 (* THE CALLER'S SIDE (IoLoopHandle::call): n successive calls on a channel whose reply queue holds their n replies get them in order - the i-th call the i-th reply - and leave the rest of the queue untouched; with C04_routing (the I/O thread puts each reply-class frame on the reply queue of its channel, in order) a call returns the server's reply to that very call *)
-Theorem C04_calls_in_order : forall (wants : list N) (s : hstate) (rest : list hitem), h_mail_rx s = true -> h_replies s = (map HMethod wants ++ rest)%list -> fst (hrun (map CCall wants) s) = map ROk wants /\ h_replies (snd (hrun (map CCall wants) s)) = rest /\ h_mail (snd (hrun (map CCall wants) s)) = h_mail s + N.of_nat (Datatypes.length wants).
+Theorem C04_calls_in_order : forall (wants : list N) (s : hstate) (rest : list hitem), h_mail_rx s = true -> h_replies s = map HMethod wants ++ rest -> fst (hrun (map CCall wants) s) = map ROk wants /\ h_replies (snd (hrun (map CCall wants) s)) = rest /\ h_mail (snd (hrun (map CCall wants) s)) = h_mail s + N.of_nat (Datatypes.length wants).
 Proof. exact calls_in_order. Qed.
 
 (* a call that returns consumes at most the head of its reply queue and never reorders it *)
@@ -31,7 +31,7 @@ Theorem C04_verdict_reported : forall (c : hcall) (e : N) (rest : list hitem) (s
 Proof. exact verdict_reported. Qed.
 
 (* THE WHOLE SYSTEM, EVERY SCHEDULE (Model/Sys.v): any number of channels, each with its caller and its program of synchronous and nowait calls; the I/O thread draining mailboxes (any prefix at a time), writing (any number of frames at a time) and routing replies; a server that answers the requests of one channel in order and the channels in ANY relative order, at any time, and that may CLOSE any channel at any moment (Channel.Close: what it owed on it is dropped, nothing follows on it). After every finite interleaving of these actions: the I/O thread never found a reply queue full nor a frame for a channel that is gone; what channel n's calls have returned is exactly the server's answers to the first so-many synchronous requests channel n issued, in order (the i-th call got the reply to the i-th request - never another channel's, never another call's) - also on a channel the server closed; on a channel the server has not closed, a caller that is not blocked has the reply of every synchronous request it issued and a blocked caller is owed exactly one item, the answer to its last request; a reply queue never holds more than two items (one reply and the verdict of a close); what was issued is a prefix of the program; and a caller is marked failed only after the I/O thread has ended or the server has closed its channel *)
-Theorem C04_system_own_reply : forall (answer : N -> N -> N) (bound qcap : N) (progs : N -> list call), 2 <= qcap -> forall sched : list act, let s := yrun answer bound qcap (init_sys progs) sched in y_fail s = false /\ (forall n : N, let c := y_ch s n in yc_results c = map (answer n) (firstn (Datatypes.length (yc_results c)) (syncs (yc_issued c))) /\ (yc_srv_closed c = false -> yc_wait c = false -> yc_failed c = false -> yc_results c = map (answer n) (syncs (yc_issued c))) /\ (yc_srv_closed c = false -> yc_wait c = true -> exists r : N, syncs (yc_issued c) = (firstn (Datatypes.length (yc_results c)) (syncs (yc_issued c)) ++ [r])%list /\ inflight answer s n = [answer n r]) /\ (Datatypes.length (yc_replyq c) <= 2)%nat /\ (yc_issued c ++ yc_prog c)%list = progs n /\ (yc_failed c = true -> y_dead s = true \/ yc_srv_closed c = true)).
+Theorem C04_system_own_reply : forall (answer : N -> N -> N) (bound qcap : N) (progs : N -> list call), 2 <= qcap -> forall sched : list act, let s := yrun answer bound qcap (init_sys progs) sched in y_fail s = false /\ (forall n : N, let c := y_ch s n in yc_results c = map (answer n) (firstn (Datatypes.length (yc_results c)) (syncs (yc_issued c))) /\ (yc_srv_closed c = false -> yc_wait c = false -> yc_failed c = false -> yc_results c = map (answer n) (syncs (yc_issued c))) /\ (yc_srv_closed c = false -> yc_wait c = true -> exists r : N, syncs (yc_issued c) = firstn (Datatypes.length (yc_results c)) (syncs (yc_issued c)) ++ [r] /\ inflight answer s n = [answer n r]) /\ (Datatypes.length (yc_replyq c) <= 2)%nat /\ yc_issued c ++ yc_prog c = progs n /\ (yc_failed c = true -> y_dead s = true \/ yc_srv_closed c = true)).
 Proof. exact sys_own_reply. Qed.
 
 (* ... in particular the capacity the code gives a reply queue (2, from the compiled crate: one reply and one verdict) is never exceeded under a compliant server, even when the server closes the channel while a reply is still queued: the hypothesis has_room of C04_routing holds in every reachable state (hypothesis 2 <= qcap; with qcap = 1 the statement is false - a queued reply followed by the Close's verdict) *)
@@ -47,15 +47,15 @@ Theorem C04_system_never_stuck : forall (answer : N -> N -> N) (bound qcap : N) 
 Proof. exact sys_never_stuck. Qed.
 
 (* the system's I/O actions ARE steps of the I/O-thread model (which the CoreProbe ties to the real code). ARead: processing a reply-class frame of channel n, with at most one item queued (the system invariant), appends the reply to n's reply queue; every other reply queue, every mailbox, the out-buffer and the phase are unchanged *)
-Theorem C04_io_read_is_ARead : forall (n : N) (m : smethod) (dbg : str) (c : core), steady c -> n <> 0 -> is_reply m -> reply_queue_ok c n -> reply_queues_distinct c -> (Datatypes.length (view_replyq c n) <= 1)%nat -> exists c' : core, process c (FMethod n m, dbg) = (OOk, c') /\ view_replyq c' n = (view_replyq c n ++ [reply_item m])%list /\ (forall k : N, k <> n -> view_replyq c' k = view_replyq c k) /\ (forall k : N, view_mail c' k = view_mail c k) /\ c_out c' = c_out c /\ c_phase c' = c_phase c.
+Theorem C04_io_read_is_ARead : forall (n : N) (m : smethod) (dbg : str) (c : core), steady c -> n <> 0 -> is_reply m -> reply_queue_ok c n -> reply_queues_distinct c -> (Datatypes.length (view_replyq c n) <= 1)%nat -> exists c' : core, process c (FMethod n m, dbg) = (OOk, c') /\ view_replyq c' n = view_replyq c n ++ [reply_item m] /\ (forall k : N, k <> n -> view_replyq c' k = view_replyq c k) /\ (forall k : N, view_mail c' k = view_mail c k) /\ c_out c' = c_out c /\ c_phase c' = c_phase c.
 Proof. exact io_read_is_ARead. Qed.
 
 (* ADrain: a wake-up of channel n takes some prefix of its mailbox, appends those buffers whole and in order to the out-buffer and leaves the rest; other mailboxes, all queues and the phase are unchanged *)
-Theorem C04_io_drain_is_ADrain : forall (n : N) (bufs : list bytes) (c : core) (s : slot), n <> 0 -> alookup n (c_slots c) = Some s -> s_mail s = map MsgSend bufs -> s_mail_tx s = true -> ob_sealed (c_out c) = false -> exists (c' : core) (k : nat), handle_event c (EvChan n) = (OOk, c', []) /\ view_mail c' n = map MsgSend (skipn k bufs) /\ ob (c_out c') = (ob (c_out c) ++ concat (firstn k bufs))%list /\ (forall j : N, j <> n -> view_mail c' j = view_mail c j) /\ c_qs c' = c_qs c /\ c_phase c' = c_phase c.
+Theorem C04_io_drain_is_ADrain : forall (n : N) (bufs : list bytes) (c : core) (s : slot), n <> 0 -> alookup n (c_slots c) = Some s -> s_mail s = map MsgSend bufs -> s_mail_tx s = true -> ob_sealed (c_out c) = false -> exists (c' : core) (k : nat), handle_event c (EvChan n) = (OOk, c', []) /\ view_mail c' n = map MsgSend (skipn k bufs) /\ ob (c_out c') = ob (c_out c) ++ concat (firstn k bufs) /\ (forall j : N, j <> n -> view_mail c' j = view_mail c j) /\ c_qs c' = c_qs c /\ c_phase c' = c_phase c.
 Proof. exact io_drain_is_ADrain. Qed.
 
 (* AWrite: a write event puts a prefix of the out-buffer on the wire and keeps the rest; mailboxes and reply queues are unchanged *)
-Theorem C04_io_write_is_AWrite : forall (c : core) (oracle : list wr) (bs : bytes) (wr0 : wres) (ob' : outbuf) (rest : list wr), write_to_stream (c_out c) oracle = (bs, wr0, ob', rest) -> wr0 = WOk -> exists c' : core, handle_event c (EvStream (Some oracle) None) = (OOk, c', bs) /\ (bs ++ ob (c_out c'))%list = ob (c_out c) /\ (forall k : N, view_mail c' k = view_mail c k) /\ (forall k : N, view_replyq c' k = view_replyq c k).
+Theorem C04_io_write_is_AWrite : forall (c : core) (oracle : list wr) (bs : bytes) (wr0 : wres) (ob' : outbuf) (rest : list wr), write_to_stream (c_out c) oracle = (bs, wr0, ob', rest) -> wr0 = WOk -> exists c' : core, handle_event c (EvStream (Some oracle) None) = (OOk, c', bs) /\ bs ++ ob (c_out c') = ob (c_out c) /\ (forall k : N, view_mail c' k = view_mail c k) /\ (forall k : N, view_replyq c' k = view_replyq c k).
 Proof. exact io_write_is_AWrite. Qed.
 
 (* THE MODEL IS THE SOURCE: IoLoopHandle::{call_message (the body of call), get, consume, call_nowait, send, recv, check_recv_for_error} of src/io_loop/io_loop_handle.rs as translated from the source text on every run (Gen/SrcHandle.v, tools/rs2sm.py) return, whenever the model says the call does not block, exactly what Model/Handle.v's hstep says and leave mailbox and reply queue as it says - the function C04_call_returns_head / C04_calls_in_order / C04_verdict_reported are about. ext_st_model states what is assumed of crossbeam's channel ends (send fails iff the receiver is gone; recv yields the oldest item, fails when empty and disconnected, blocks otherwise), ext_model that T::try_from accepts exactly the expected method type *)
@@ -63,8 +63,12 @@ Theorem C04_call_source_is_model : forall (c : hcall) (s : hstate) (r : hres) (s
 Proof. exact call_source_is_model. Qed.
 
 (* ... and the system's ARead of a server Channel.Close is the Core's step: verdict behind the queued reply, slot and mailbox gone, other slots untouched, CloseOk(n) queued *)
-Theorem C04_io_close_is_ARead_close : forall (n code : N) (text dbg : str) (c : core) (s : slot), steady c -> n <> 0 -> alookup n (c_slots c) = Some s -> s_consumers s = [] -> reply_queue_ok c n -> (Datatypes.length (view_replyq c n) <= 1)%nat -> exists c' : core, process c (FMethod n (MChanClose code text), dbg) = (OOk, c') /\ alookup n (c_slots c') = None /\ items_of (s_reply s) (c_qs c') = Some (view_replyq c n ++ [IReplyErr (EServerClosedChannel n code text)])%list /\ (forall k : N, k <> n -> alookup k (c_slots c') = alookup k (c_slots c)) /\ c_out c' = ob_append (c_out c) (ser_chan_close_ok n).
+Theorem C04_io_close_is_ARead_close : forall (n code : N) (text dbg : str) (c : core) (s : slot), steady c -> n <> 0 -> alookup n (c_slots c) = Some s -> s_consumers s = [] -> reply_queue_ok c n -> (Datatypes.length (view_replyq c n) <= 1)%nat -> exists c' : core, process c (FMethod n (MChanClose code text), dbg) = (OOk, c') /\ alookup n (c_slots c') = None /\ items_of (s_reply s) (c_qs c') = Some (view_replyq c n ++ [IReplyErr (EServerClosedChannel n code text)]) /\ (forall k : N, k <> n -> alookup k (c_slots c') = alookup k (c_slots c)) /\ c_out c' = ob_append (c_out c) (ser_chan_close_ok n).
 Proof. exact io_close_is_ARead_close. Qed.
+
+(* THE MODEL IS THE SOURCE: connection_state.rs's `send` - through which every reply, verdict and consumer message reaches a client-side queue - as translated from the source on every run (Gen/SrcQueues.v) is the model's send / try_send: appended when the queue has room and a receiver, FrameUnexpected when full, EventLoopClientDropped when the receiver is gone, the queues untouched in both failure cases *)
+Theorem C04_send_source_is_model : forall (enc_item : qitem -> val) (q : N) (it : qitem) (c : core), gen_send ext_st_model (enc_tx enc_item q (c_qs c)) (enc_item it) = (enc_tx enc_item q (c_qs (snd (send q it c))), enc_outcome (fst (send q it c))).
+Proof. exact send_source_is_model. Qed.
 
 (* non-vacuity: Queue.DeclareOk("q", 7, 2) on channel 3 lands in slot 3's reply queue (id 5) *)
 Example C04_example :
@@ -98,19 +102,20 @@ Proof. vm_compute. repeat split. Qed.
 Check C04_routing : forall (n : N) (m : smethod) (dbg : str) (c : core) (s : slot), steady c -> n <> 0 -> alookup n (c_slots c) = Some s -> is_reply m -> has_room (s_reply s) (c_qs c) -> process c (FMethod n m, dbg) = (OOk, set_qs c (pushed (s_reply s) (reply_item m) (c_qs c))).
 Check C04_bogus : forall (n : N) (m : smethod) (dbg : str) (c : core), steady c -> n <> 0 -> alookup n (c_slots c) = None -> is_reply m -> process c (FMethod n m, dbg) = (OErr (EBogusChannel n), c).
 Check C04_other_channels : forall (f : frame) (dbg : str) (c : core) (o : outcome) (c' : core), frame_chan f <> 0 -> process c (f, dbg) = (o, c') -> slots_off (frame_chan f) c c'.
-Check C04_calls_in_order : forall (wants : list N) (s : hstate) (rest : list hitem), h_mail_rx s = true -> h_replies s = (map HMethod wants ++ rest)%list -> fst (hrun (map CCall wants) s) = map ROk wants /\ h_replies (snd (hrun (map CCall wants) s)) = rest /\ h_mail (snd (hrun (map CCall wants) s)) = h_mail s + N.of_nat (Datatypes.length wants).
+Check C04_calls_in_order : forall (wants : list N) (s : hstate) (rest : list hitem), h_mail_rx s = true -> h_replies s = map HMethod wants ++ rest -> fst (hrun (map CCall wants) s) = map ROk wants /\ h_replies (snd (hrun (map CCall wants) s)) = rest /\ h_mail (snd (hrun (map CCall wants) s)) = h_mail s + N.of_nat (Datatypes.length wants).
 Check C04_call_takes_head : forall (c : hcall) (s : hstate) (r : hres) (s' : hstate), hstep c s = Some (r, s') -> h_replies s' = h_replies s \/ (exists it : hitem, h_replies s = it :: h_replies s').
 Check C04_call_returns_head : forall (want : N) (rest : list hitem) (s : hstate), h_mail_rx s = true -> h_replies s = HMethod want :: rest -> hstep (CCall want) s = Some (ROk want, with_replies s rest (h_mail s + 1)).
 Check C04_verdict_reported : forall (c : hcall) (e : N) (rest : list hitem) (s : hstate), c <> CNowait \/ h_mail_rx s = false -> h_replies s = HErr e :: rest -> exists s' : hstate, hstep c s = Some (RErrItem e, s') /\ h_replies s' = rest.
-Check C04_system_own_reply : forall (answer : N -> N -> N) (bound qcap : N) (progs : N -> list call), 2 <= qcap -> forall sched : list act, let s := yrun answer bound qcap (init_sys progs) sched in y_fail s = false /\ (forall n : N, let c := y_ch s n in yc_results c = map (answer n) (firstn (Datatypes.length (yc_results c)) (syncs (yc_issued c))) /\ (yc_srv_closed c = false -> yc_wait c = false -> yc_failed c = false -> yc_results c = map (answer n) (syncs (yc_issued c))) /\ (yc_srv_closed c = false -> yc_wait c = true -> exists r : N, syncs (yc_issued c) = (firstn (Datatypes.length (yc_results c)) (syncs (yc_issued c)) ++ [r])%list /\ inflight answer s n = [answer n r]) /\ (Datatypes.length (yc_replyq c) <= 2)%nat /\ (yc_issued c ++ yc_prog c)%list = progs n /\ (yc_failed c = true -> y_dead s = true \/ yc_srv_closed c = true)).
+Check C04_system_own_reply : forall (answer : N -> N -> N) (bound qcap : N) (progs : N -> list call), 2 <= qcap -> forall sched : list act, let s := yrun answer bound qcap (init_sys progs) sched in y_fail s = false /\ (forall n : N, let c := y_ch s n in yc_results c = map (answer n) (firstn (Datatypes.length (yc_results c)) (syncs (yc_issued c))) /\ (yc_srv_closed c = false -> yc_wait c = false -> yc_failed c = false -> yc_results c = map (answer n) (syncs (yc_issued c))) /\ (yc_srv_closed c = false -> yc_wait c = true -> exists r : N, syncs (yc_issued c) = firstn (Datatypes.length (yc_results c)) (syncs (yc_issued c)) ++ [r] /\ inflight answer s n = [answer n r]) /\ (Datatypes.length (yc_replyq c) <= 2)%nat /\ yc_issued c ++ yc_prog c = progs n /\ (yc_failed c = true -> y_dead s = true \/ yc_srv_closed c = true)).
 Check C04_system_reply_queue_never_full : forall (answer : N -> N -> N) (bound qcap : N) (progs : N -> list call), 2 <= qcap -> forall sched : list act, y_fail (yrun answer bound qcap (init_sys progs) sched) = false.
 Check C04_system_waiting_progress : forall (answer : N -> N -> N) (bound qcap : N) (progs : N -> list call), 2 <= qcap -> forall (sched : list act) (n : N), let s := yrun answer bound qcap (init_sys progs) sched in yc_srv_closed (y_ch s n) = false -> yc_wait (y_ch s n) = true -> yc_replyq (y_ch s n) <> [] \/ y_inwire s <> [] \/ yc_pend (y_ch s n) <> [] \/ y_outwire s <> [] \/ y_outbuf s <> [] \/ yc_mail (y_ch s n) <> [].
 Check C04_system_never_stuck : forall (answer : N -> N -> N) (bound qcap : N) (progs : N -> list call), 2 <= qcap -> forall (sched : list act) (n : N), let s := yrun answer bound qcap (init_sys progs) sched in y_dead s = false -> yc_wait (y_ch s n) = true -> exists cont : list act, ~ In ADie cont /\ yc_wait (y_ch (yrun answer bound qcap s cont) n) = false.
-Check C04_io_read_is_ARead : forall (n : N) (m : smethod) (dbg : str) (c : core), steady c -> n <> 0 -> is_reply m -> reply_queue_ok c n -> reply_queues_distinct c -> (Datatypes.length (view_replyq c n) <= 1)%nat -> exists c' : core, process c (FMethod n m, dbg) = (OOk, c') /\ view_replyq c' n = (view_replyq c n ++ [reply_item m])%list /\ (forall k : N, k <> n -> view_replyq c' k = view_replyq c k) /\ (forall k : N, view_mail c' k = view_mail c k) /\ c_out c' = c_out c /\ c_phase c' = c_phase c.
-Check C04_io_drain_is_ADrain : forall (n : N) (bufs : list bytes) (c : core) (s : slot), n <> 0 -> alookup n (c_slots c) = Some s -> s_mail s = map MsgSend bufs -> s_mail_tx s = true -> ob_sealed (c_out c) = false -> exists (c' : core) (k : nat), handle_event c (EvChan n) = (OOk, c', []) /\ view_mail c' n = map MsgSend (skipn k bufs) /\ ob (c_out c') = (ob (c_out c) ++ concat (firstn k bufs))%list /\ (forall j : N, j <> n -> view_mail c' j = view_mail c j) /\ c_qs c' = c_qs c /\ c_phase c' = c_phase c.
-Check C04_io_write_is_AWrite : forall (c : core) (oracle : list wr) (bs : bytes) (wr0 : wres) (ob' : outbuf) (rest : list wr), write_to_stream (c_out c) oracle = (bs, wr0, ob', rest) -> wr0 = WOk -> exists c' : core, handle_event c (EvStream (Some oracle) None) = (OOk, c', bs) /\ (bs ++ ob (c_out c'))%list = ob (c_out c) /\ (forall k : N, view_mail c' k = view_mail c k) /\ (forall k : N, view_replyq c' k = view_replyq c k).
+Check C04_io_read_is_ARead : forall (n : N) (m : smethod) (dbg : str) (c : core), steady c -> n <> 0 -> is_reply m -> reply_queue_ok c n -> reply_queues_distinct c -> (Datatypes.length (view_replyq c n) <= 1)%nat -> exists c' : core, process c (FMethod n m, dbg) = (OOk, c') /\ view_replyq c' n = view_replyq c n ++ [reply_item m] /\ (forall k : N, k <> n -> view_replyq c' k = view_replyq c k) /\ (forall k : N, view_mail c' k = view_mail c k) /\ c_out c' = c_out c /\ c_phase c' = c_phase c.
+Check C04_io_drain_is_ADrain : forall (n : N) (bufs : list bytes) (c : core) (s : slot), n <> 0 -> alookup n (c_slots c) = Some s -> s_mail s = map MsgSend bufs -> s_mail_tx s = true -> ob_sealed (c_out c) = false -> exists (c' : core) (k : nat), handle_event c (EvChan n) = (OOk, c', []) /\ view_mail c' n = map MsgSend (skipn k bufs) /\ ob (c_out c') = ob (c_out c) ++ concat (firstn k bufs) /\ (forall j : N, j <> n -> view_mail c' j = view_mail c j) /\ c_qs c' = c_qs c /\ c_phase c' = c_phase c.
+Check C04_io_write_is_AWrite : forall (c : core) (oracle : list wr) (bs : bytes) (wr0 : wres) (ob' : outbuf) (rest : list wr), write_to_stream (c_out c) oracle = (bs, wr0, ob', rest) -> wr0 = WOk -> exists c' : core, handle_event c (EvStream (Some oracle) None) = (OOk, c', bs) /\ bs ++ ob (c_out c') = ob (c_out c) /\ (forall k : N, view_mail c' k = view_mail c k) /\ (forall k : N, view_replyq c' k = view_replyq c k).
 Check C04_call_source_is_model : forall (c : hcall) (s : hstate) (r : hres) (s' : hstate) (arg : val), hstep c s = Some (r, s') -> gen_call c (enc_state s) arg = (enc_state s', enc_res c r).
-Check C04_io_close_is_ARead_close : forall (n code : N) (text dbg : str) (c : core) (s : slot), steady c -> n <> 0 -> alookup n (c_slots c) = Some s -> s_consumers s = [] -> reply_queue_ok c n -> (Datatypes.length (view_replyq c n) <= 1)%nat -> exists c' : core, process c (FMethod n (MChanClose code text), dbg) = (OOk, c') /\ alookup n (c_slots c') = None /\ items_of (s_reply s) (c_qs c') = Some (view_replyq c n ++ [IReplyErr (EServerClosedChannel n code text)])%list /\ (forall k : N, k <> n -> alookup k (c_slots c') = alookup k (c_slots c)) /\ c_out c' = ob_append (c_out c) (ser_chan_close_ok n).
+Check C04_io_close_is_ARead_close : forall (n code : N) (text dbg : str) (c : core) (s : slot), steady c -> n <> 0 -> alookup n (c_slots c) = Some s -> s_consumers s = [] -> reply_queue_ok c n -> (Datatypes.length (view_replyq c n) <= 1)%nat -> exists c' : core, process c (FMethod n (MChanClose code text), dbg) = (OOk, c') /\ alookup n (c_slots c') = None /\ items_of (s_reply s) (c_qs c') = Some (view_replyq c n ++ [IReplyErr (EServerClosedChannel n code text)]) /\ (forall k : N, k <> n -> alookup k (c_slots c') = alookup k (c_slots c)) /\ c_out c' = ob_append (c_out c) (ser_chan_close_ok n).
+Check C04_send_source_is_model : forall (enc_item : qitem -> val) (q : N) (it : qitem) (c : core), gen_send ext_st_model (enc_tx enc_item q (c_qs c)) (enc_item it) = (enc_tx enc_item q (c_qs (snd (send q it c))), enc_outcome (fst (send q it c))).
 
 Print Assumptions C04_routing.
 Print Assumptions C04_bogus.
@@ -128,5 +133,6 @@ Print Assumptions C04_io_drain_is_ADrain.
 Print Assumptions C04_io_write_is_AWrite.
 Print Assumptions C04_call_source_is_model.
 Print Assumptions C04_io_close_is_ARead_close.
+Print Assumptions C04_send_source_is_model.
 Print Assumptions C04_example.
 Print Assumptions C04_system_example.
